@@ -103,6 +103,7 @@ Record oracle_ok (c : gcfg) (h : hop) (o : gobs) (st : ostate) : Prop := {
   ok_emptyid : match h with HEv 0 _ _ => o_res o = 3 /\ o_compose o = [] | _ => True end;
   ok_sent_gateable : o_sent_gateable o = false;
   ok_index : o_index_ok o = true;
+  ok_sent_stale : o_sent_stale o = false;
   ok_mutated : o_mutated o = false
 }.
 
@@ -113,7 +114,7 @@ Proof.
           else filter (fun n => negb (memN n (composed_nums o))) (os_pend st ++ accepted_now h o)) with (next_pend c h o st).
   rewrite !app_nil_both, !ite_nil, !ite_nil'.
   split.
-  - intros [H1 [H2 [H3 [H4 [H5 [H6 [H7 [H8 [H9 H10]]]]]]]]]. constructor.
+  - intros [H1 [H2 [H3 [H4 [H5 [H6 [H7 [H8 [H9 [H9' H10]]]]]]]]]]. constructor.
     + intros Hr g Hg. apply andb_false_iff in H1 as [H1|H1].
       * exfalso. destruct Hr as [Hr|Hr]; rewrite Hr in H1; discriminate.
       * apply negb_false_iff in H1. rewrite forallb_forall in H1. specialize (H1 g Hg). apply negb_true_iff, Z.ltb_ge in H1. exact H1.
@@ -132,8 +133,9 @@ Proof.
       apply andb_true_iff in E as [E1 E2]. split; [apply N.eqb_eq, E1|apply nonempty_false, negb_true_iff, E2].
     + exact H8.
     + exact H9.
+    + exact H9'.
     + exact H10.
-  - intros [L1 L2 D1 D2 O1 O2 Lo Id Em Sg Ix Mu]. repeat split.
+  - intros [L1 L2 D1 D2 O1 O2 Lo Id Em Sg Ix St Mu]. repeat split.
     + destruct (N.eqb (o_res o) 1 || N.eqb (o_res o) 2) eqn:Er; [|reflexivity]. cbn [andb]. apply negb_false_iff, forallb_forall.
       intros g Hg. apply negb_true_iff, Z.ltb_ge. apply L1; [|exact Hg]. apply orb_true_iff in Er as [Er|Er]; apply N.eqb_eq in Er; auto.
     + destruct (flush_op h) eqn:Ef; [|reflexivity]. destruct (N.eqb (o_res o) 4) eqn:Er; [|reflexivity]. cbn [andb].
@@ -147,20 +149,21 @@ Proof.
     + destruct h as [id fl n| | | |]; try reflexivity. destruct id; [|reflexivity]. destruct Em as [E1 E2]. rewrite E1, E2. reflexivity.
     + exact Sg.
     + exact Ix.
+    + exact St.
     + exact Mu.
 Qed.
 
 Inductive oracles_ok (c : gcfg) : ostate -> list (hop * gobs) -> Prop :=
 | ok_nil : forall st, oracles_ok c st []
-| ok_cons : forall st h o rest, oracle_ok c h o st -> oracles_ok c (next_ostate c h o st) rest -> oracles_ok c st ((h, o) :: rest).
+| ok_cons : forall st h o rest, oracle_ok (cfg_at c o) h o st -> oracles_ok c (next_ostate (cfg_at c o) h o st) rest -> oracles_ok c st ((h, o) :: rest).
 
 Theorem run_case_sound c : forall steps s st i,
   run_case c false s st i steps = [] -> accepted c s steps /\ oracles_ok c st steps.
 Proof.
   induction steps as [|[h o] rest IH]; intros s st i H; [split; constructor|].
   cbn [run_case] in H. destruct (step (env_of (cfg_at c o)) s (op_of h (o_now o))) as [s' r] eqn:Es.
-  pose proof (oracle_spec c h o st) as Hos. pose proof (oracle_state c h o st) as Hst.
-  destruct (oracle c h o st) as [ks st']. cbn [fst snd] in Hos, Hst. subst st'.
+  pose proof (oracle_spec (cfg_at c o) h o st) as Hos. pose proof (oracle_state (cfg_at c o) h o st) as Hst.
+  destruct (oracle (cfg_at c o) h o st) as [ks st']. cbn [fst snd] in Hos, Hst. subst st'.
   apply app_nil_both in H as [Hm Hrest]. apply map_nil, app_nil_both in Hm as [Hmm Hks].
   rewrite Hmm in Hrest. cbn [orb nonempty] in Hrest. destruct (IH _ _ _ Hrest) as [Ha Ho].
   apply app_nil_both in Hmm as [H1 Hmm]. apply app_nil_both in Hmm as [H2 Hmm]. apply app_nil_both in Hmm as [H3 Hmm].
@@ -176,8 +179,8 @@ Proof.
   induction steps as [|[h o] rest IH]; intros s st i Ha Ho; [reflexivity|].
   inversion Ha as [|s0 h0 o0 rest0 s' r Es H1 H2 H3 H4 H5 Hacc]; subst. inversion Ho as [|st0 h0 o0 rest0 Hok Hro]; subst.
   cbn [run_case]. rewrite Es.
-  pose proof (oracle_spec c h o st) as Hos. pose proof (oracle_state c h o st) as Hst.
-  destruct (oracle c h o st) as [ks st']. cbn [fst snd] in Hos, Hst. subst st'.
+  pose proof (oracle_spec (cfg_at c o) h o st) as Hos. pose proof (oracle_state (cfg_at c o) h o st) as Hst.
+  destruct (oracle (cfg_at c o) h o st) as [ks st']. cbn [fst snd] in Hos, Hst. subst st'.
   apply Hos in Hok. subst ks.
   assert (Hmm : (if N.eqb (res_code r) (o_res o) then [] else [KRes]) ++ (if eq_list pair_eqb (res_comp r) (o_comp o) then [] else [KComp]) ++
                 (if eq_list (eq_list pair_eqb) (composed_of (produced s s')) (o_compose o) then [] else [KCompose]) ++
